@@ -23,6 +23,16 @@ def demo_path(agent_dir):
     p = os.path.join(agent_dir, "demo_test.go")
     return p if os.path.exists(p) else p + ".txt"
 
+def extra_tests(agent_dir):
+    """helper test files shipped with a demo (e.g. build-tagged race detection)"""
+    out = []
+    for f in sorted(os.listdir(agent_dir)):
+        if f.endswith("_test.go") and f != "demo_test.go":
+            out.append(f)
+        if f.endswith("_test.go.txt") and f != "demo_test.go.txt":
+            out.append(f)
+    return out
+
 def confirm(agent_dir, wt):
     res = {}
     sh(f"git -C /repo worktree remove --force {wt}")
@@ -30,8 +40,19 @@ def confirm(agent_dir, wt):
     if rc != 0:
         raise SystemExit("worktree: " + out)
     try:
-        shutil.copy(demo_path(agent_dir), os.path.join(wt, "zz_seed_demo_test.go"))
-        rc, out = sh("go test -vet=off -count=1 -run 'TestSeedDemo' .", cwd=wt)
+        extras = extra_tests(agent_dir)
+        race = "-race " if extras else ""
+        res["demo_flags"] = race.strip()
+        def install():
+            shutil.copy(demo_path(agent_dir), os.path.join(wt, "zz_seed_demo_test.go"))
+            for f in extras:
+                shutil.copy(os.path.join(agent_dir, f), os.path.join(wt, "zz_" + f.replace(".txt", "")))
+        def uninstall():
+            for f in os.listdir(wt):
+                if f.startswith("zz_") and f.endswith("_test.go"):
+                    os.remove(os.path.join(wt, f))
+        install()
+        rc, out = sh(f"go test {race}-vet=off -count=1 -run 'TestSeedDemo' .", cwd=wt)
         res["demo_passes_without_patch"] = rc == 0
         res["demo_without_tail"] = out[-600:]
         rc, out = sh(f"git apply {os.path.join(agent_dir, 'patch.diff')}", cwd=wt)
@@ -42,17 +63,21 @@ def confirm(agent_dir, wt):
             res["apply_output"] = out[-800:]
             return res
         # patch as it applies to the current HEAD
-        os.remove(os.path.join(wt, "zz_seed_demo_test.go"))
+        uninstall()
         rc, out = sh("git diff", cwd=wt)
         res["rebased_patch"] = out
-        shutil.copy(demo_path(agent_dir), os.path.join(wt, "zz_seed_demo_test.go"))
+        install()
         rc, out = sh("go build ./...", cwd=wt)
         res["builds"] = rc == 0
-        rc, out = sh("go test -vet=off -count=1 -run 'TestSeedDemo' .", cwd=wt)
+        rc, out = sh(f"go test {race}-vet=off -count=1 -run 'TestSeedDemo' .", cwd=wt)
         res["demo_fails_with_patch"] = rc != 0
         res["demo_with_tail"] = out[-600:]
-        os.remove(os.path.join(wt, "zz_seed_demo_test.go"))
+        uninstall()
         rc, out = sh("go test -vet=off -count=1 -timeout 25m ./...", cwd=wt)
+        if rc != 0 and "TestIndexAllTypes" in out and out.count("--- FAIL") == 1:
+            # known flaky on the unchanged code (random data): one retry
+            rc, out = sh("go test -vet=off -count=1 -timeout 25m ./...", cwd=wt)
+            res["suite_retried_after_flaky_TestIndexAllTypes"] = True
         res["suite_passes_with_patch"] = rc == 0
         res["suite_tail"] = out[-400:]
     finally:
@@ -115,6 +140,9 @@ def main():
     open(os.path.join(dst, "patch.diff"), "w").write(rebased)
     if os.path.abspath(agent_dir) != os.path.abspath(dst):
         shutil.copy(demo_path(agent_dir), os.path.join(dst, "demo_test.go.txt"))
+    if os.path.abspath(agent_dir) != os.path.abspath(dst):
+        for f in extra_tests(agent_dir):
+            shutil.copy(os.path.join(agent_dir, f), os.path.join(dst, f if f.endswith(".txt") else f + ".txt"))
     notes = ""
     if os.path.exists(os.path.join(agent_dir, "notes.md")):
         notes = open(os.path.join(agent_dir, "notes.md")).read()
@@ -129,7 +157,7 @@ def main():
         "confirmed_on_repo_head": head,
         "confirmation": {
             "demo_passes_without_patch": True, "builds": True, "existing_suite_passes_with_patch": True, "demo_fails_with_patch": True,
-            "commands": ["go test -vet=off -count=1 -run TestSeedDemo .  (scratch worktree, with and without patch)", "go test -vet=off -count=1 -timeout 25m ./...  (with patch)"],
+            "commands": ["go test " + res.get("demo_flags", "") + " -vet=off -count=1 -run TestSeedDemo .  (scratch worktree, with and without patch)", "go test -vet=off -count=1 -timeout 25m ./...  (with patch)"],
         },
         "checks_run": results,
         "caught_by": [c for c, r in results.items() if r["caught"]],
